@@ -315,6 +315,9 @@ func (f *Frame) execUnOp(cur *blockCur, x *ssa.UnOp) {
 		}
 		cur.assume(f.typeInv(res))
 		f.c.noUserInv = false
+		if g, isGlobal := x.X.(*ssa.Global); isGlobal {
+			f.globalLoadFacts(cur, g, res)
+		}
 		// loading a field of a foreign object: the enclosing object satisfies its type invariant
 		if !f.isLocalRoot(p.Root) && len(p.Path) > 0 {
 			if p.ArrElem != nil && p.Path[0].Index != "" && len(p.Path) > 1 && c.hasTypeInv(p.ArrElem) {
@@ -439,7 +442,19 @@ func (f *Frame) execSlice(cur *blockCur, x *ssa.Slice) {
 		f.safety("slice", cur, and(c.iLe(zero, lo), c.iLe(lo, hi), c.iLe(hi, mx), c.iLe(mx, n)), x, "")
 		bp := c.ptrOf(base)
 		if len(bp.Path) > 0 || bp.ArrElem == nil {
-			f.unsupported("slicing an interior array")
+			// an array embedded in another object: the slice views a synthetic backing array that holds the array's
+			// current value; copy() through the slice is written back to the embedding object (execCopy). Other
+			// writes through such a slice are not followed (noted).
+			syn := f.freshRef(cur, f.prefixSym()+x.Name()+"_interior")
+			k := c.so.heapArr(at.Elem())
+			cur.st = cur.st.set(k, fmt.Sprintf("(store %s %s %s)", cur.st.get(k), syn, c.load(cur.st, bp, t.Elem())))
+			v := f.named(x, fmt.Sprintf("(mk_slice %s %s %s %s)", syn, lo, c.iSub(hi, lo), c.iSub(mx, lo)))
+			if c.interior == nil {
+				c.interior = map[string]*Ptr{}
+			}
+			c.interior[v.S] = bp
+			c.note("slice of an embedded array: only copy() into it is written back to the embedding object")
+			return
 		}
 		f.named(x, fmt.Sprintf("(mk_slice %s %s %s %s)", bp.Root, lo, c.iSub(hi, lo), c.iSub(mx, lo)))
 	default:
